@@ -77,6 +77,8 @@ type Sched struct {
 	prologue        bool        // the scenario's set-up is running (as model thread "setup"): default choices only, nothing recorded
 	afterPrologue   bool        // the next scheduling decision is the first one of the concurrent phase (free)
 	proSteps        int
+	abortFn         func() bool
+	TimedOut        bool
 	unheld          int              // threads that exist and are not held (set-up phase fast path)
 	timeChans       []unsafe.Pointer // see MarkTimeChan
 	noted           []unsafe.Pointer // objects created by rewritten code, in creation order (see NoteObj)
@@ -405,6 +407,14 @@ func (s *Sched) stateKey(runEnabled bool) uint64 {
 //go:norace
 func (s *Sched) switchFrom(t *Thread) {
 	if s.aborting {
+		if t.done {
+			return
+		}
+		panic(abortSentinel)
+	}
+	if s.abortFn != nil && (s.Steps+s.proSteps)&2047 == 2047 && s.abortFn() {
+		s.TimedOut = true
+		s.finish()
 		if t.done {
 			return
 		}
@@ -863,6 +873,7 @@ func Self() int {
 
 // Exec is the outcome of one execution.
 type Exec struct {
+	TimedOut bool // abandoned because RunConfig.Abort said so (nothing about it is judged)
 	Choices  []int
 	Points   []Point
 	Deadlock bool
@@ -888,6 +899,8 @@ type RunConfig struct {
 	// while it can run, else the lowest ordinary thread) and EVERY other choice of thread costs
 	// one deviation. Without it forced switches are free (preemption bounding).
 	Delay bool
+	// Abort: see Options.Abort.
+	Abort func() bool
 }
 
 // SetupPassThrough selects the old set-up mode (the scenario body runs on the caller's goroutine before
@@ -897,7 +910,7 @@ var SetupPassThrough = os.Getenv("VERIF_SETUP_PASSTHROUGH") != ""
 // Run performs one execution: body spawns the model threads (sequential set-up
 // first, in pass-through mode), then the concurrent phase runs to completion.
 func Run(cfg RunConfig, body func(s *Sched)) *Exec {
-	s := &Sched{prefix: cfg.Prefix, fin: make(chan struct{}, 1), tracing: cfg.Trace, maxSteps: cfg.MaxSteps, visit: cfg.Visit, delay: cfg.Delay}
+	s := &Sched{prefix: cfg.Prefix, fin: make(chan struct{}, 1), tracing: cfg.Trace, maxSteps: cfg.MaxSteps, visit: cfg.Visit, delay: cfg.Delay, abortFn: cfg.Abort}
 	if s.maxSteps == 0 {
 		s.maxSteps = 20000
 	}
@@ -925,7 +938,7 @@ func Run(cfg RunConfig, body func(s *Sched)) *Exec {
 	s.wg.Wait()
 	cur = nil
 	raceJoin()
-	x := &Exec{Points: s.Points, Deadlock: s.Deadlock, Blocked: s.Blocked, Panic: s.Panic, Livelock: s.Livelock, Pruned: s.Pruned, Steps: s.Steps, Trace: s.Trace, NoBlockViolated: s.NoBlockViolated}
+	x := &Exec{TimedOut: s.TimedOut, Points: s.Points, Deadlock: s.Deadlock, Blocked: s.Blocked, Panic: s.Panic, Livelock: s.Livelock, Pruned: s.Pruned, Steps: s.Steps, Trace: s.Trace, NoBlockViolated: s.NoBlockViolated}
 	x.Choices = make([]int, len(s.Points))
 	for i, p := range s.Points {
 		x.Choices[i] = p.Chosen
